@@ -206,4 +206,274 @@ theorem stv_fuel_unreachable {E : Engine} (hE : EngineOK E) (cfg : Cfg) (inp : I
   have hfin := runCounts_finished hE _ st0 st (.init h0) (initial_measure hE h0) hk
   simp [finished, hfin]
 
+/-! ## what a count under Gregory transfer can answer besides a new state -/
+
+def errNonPositiveQuota : Err := .other "unmodelled:non-positive quota"
+def errNegativeRemaining : Err := .other "unmodelled:negative remaining seats"
+def errNegativeAvailable : Err := .other "unmodelled:negative available seats"
+
+/-- the error outcomes of one `next_count` under Gregory transfer, each with the condition it arises under -/
+inductive CountErr (cfg : Cfg) (a : Alloc) (n : Nat) (total : Rat) (prev maxS : Seats) : Err → Prop
+  /-- an unresolved tie (`_correct_overcount`, `select_retained`) -/
+  | tie : CountErr cfg a n total prev maxS .notImplemented
+  /-- `eliminate_step=None` without a retainer -/
+  | noStep : cfg.step = none → CountErr cfg a n total prev maxS .valueError
+  /-- the quota function returned a non-positive value (outside the model: Python divides by it) -/
+  | quota (q : Rat) : computeQuota cfg total n = some q → q ≤ 0 → CountErr cfg a n total prev maxS errNonPositiveQuota
+  /-- more seats awarded than asked for (outside the model) -/
+  | over : n < sumSeats prev → CountErr cfg a n total prev maxS errNegativeRemaining
+  /-- the elect-all shortcut with a candidate above its maximum (outside the model) -/
+  | avail (p : Cand × Option Int) (k : Int) : p ∈ availSeats a prev maxS → p.2 = some k → k < 0 →
+      shortcutCond cfg a n prev maxS = true → CountErr cfg a n total prev maxS errNegativeAvailable
+
+theorem gregory_afterElimination_err {a : Alloc} {step : Option Int} {ds : List Draw} {e : Err}
+    (h : afterElimination gregory a step ds = .error e) :
+    e = .notImplemented ∨ (step = none ∧ e = .valueError) := by
+  unfold afterElimination at h
+  simp only at h
+  split at h
+  · rename_i e' hsel
+    injection h with h; subst h
+    cases step with
+    | none => right; refine ⟨rfl, ?_⟩; simp only [selectRetained] at hsel; injection hsel with hsel; exact hsel.symm
+    | some s => left; exact selectRetained_err hsel
+  · rename_i retained hsel
+    obtain ⟨a2, htr⟩ := gregory_transferIf_ok a
+      (((totalsInPlay a).map (·.1)).filter (fun c => decide (c ∉ retained))) ds
+    rw [htr] at h
+    cases h
+
+theorem gregory_afterElection_ok {a : Alloc} (hk : KeysNodup a) {eq : Bool} {qv : Rat} (hpos : 0 < qv) {nRem : Nat}
+    {prev maxS : Seats} {el : Seats} (hel : electByQuota eq qv nRem prev maxS (totalsInPlay a) = .ok el)
+    (ds : List Draw) : ∃ out, afterElection gregory a el qv prev maxS ds = .ok (out, ds) := by
+  obtain ⟨hnd, hfacts⟩ := election_facts hk hpos hel
+  obtain ⟨a1, hsub1⟩ := gregory_subtract_ok (a := a) ds (els := el.map (fun ck => (ck.1, (ck.2 : Rat) * qv)))
+    (by simpa [List.map_map, Function.comp_def] using hnd)
+    (by
+      intro x hx
+      obtain ⟨ck, hck, rfl⟩ := List.mem_map.mp hx
+      obtain ⟨_, h1, h2, _⟩ := hfacts ck hck
+      have : (0 : Rat) < (ck.2 : Rat) * qv := mul_pos (by exact_mod_cast h1) hpos
+      unfold totalOf at h2
+      simp only
+      linarith)
+  obtain ⟨a2, htr⟩ := gregory_transferIf_ok a1 (fullyElected el prev maxS) ds
+  exact ⟨{ alloc := a2, elected := el, eliminated := fullyElected el prev maxS, shortcut := false },
+    by unfold afterElection; simp only [hsub1, htr]⟩
+
+theorem gregory_nextCount_err {cfg : Cfg} {a : Alloc} (hk : KeysNodup a) {n : Nat} {total : Rat} {prev maxS : Seats}
+    {ds : List Draw} {e : Err} (h : nextCount gregory cfg a n total prev maxS ds = .error e) :
+    CountErr cfg a n total prev maxS e := by
+  unfold nextCount at h
+  split at h
+  · rename_i hgt
+    injection h with h; subst h
+    exact .over hgt
+  · split at h
+    · rename_i hs
+      unfold electAll at h
+      simp only at h
+      split at h
+      · rename_i hany
+        injection h with h; subst h
+        obtain ⟨p, hp, hpp⟩ := List.any_eq_true.mp hany
+        have hs' := hs
+        unfold shortcutCond at hs'
+        simp only [Bool.and_eq_true, decide_eq_true_eq] at hs'
+        obtain ⟨_, _, hall, _⟩ := totAvail_go _ _ hs'.1
+        obtain ⟨k, hk2⟩ := hall p hp
+        rw [hk2] at hpp
+        exact .avail p k hp hk2 (by simpa using hpp) hs
+      · cases h
+    · unfold countProper at h
+      split at h
+      · rcases gregory_afterElimination_err h with rfl | ⟨hst, rfl⟩
+        · exact .tie
+        · exact .noStep hst
+      · rename_i qv hq
+        split at h
+        · rename_i hle
+          injection h with h; subst h
+          exact .quota qv hq hle
+        · rename_i hpos
+          split at h
+          · rename_i e' hel
+            injection h with h; subst h
+            rw [electByQuota_err hel]
+            exact .tie
+          · rename_i el hel
+            split at h
+            · rcases gregory_afterElimination_err h with rfl | ⟨hst, rfl⟩
+              · exact .tie
+              · exact .noStep hst
+            · obtain ⟨out, hout⟩ := gregory_afterElection_ok hk (not_le.mp hpos) hel ds
+              rw [hout] at h
+              cases h
+
+/-- one iteration of the counting loop: the declared "infinite loop" refusal, or an outcome of `next_count` -/
+theorem gregory_countStep_err {cfg : Cfg} {inp : Input} {st : St} {e : Err}
+    (hi : StInv cfg inp st) (h : countStep gregory cfg inp st = .error e) :
+    e = .votingSystemError ∨ CountErr cfg st.alloc inp.nSeats (totalVotes inp.votes) st.seats inp.maxS e := by
+  unfold countStep at h
+  split at h
+  · cases h
+  · rename_i hne
+    have hk := hi.keys (final_false_of_ne hi hne)
+    split at h
+    · rename_i e' herr
+      injection h with h; subst h
+      exact Or.inr (gregory_nextCount_err hk herr)
+    · split at h
+      · injection h with h; exact Or.inl h.symm
+      · cases h
+
+/-- **Outcomes of an evaluation under Gregory transfer** (any configuration, any input, selector or distributor
+    form): an error outcome is `VotingSystemError`, or an outcome of `next_count` at a state the run reaches. -/
+theorem gregory_evaluate_err {cfg : Cfg} {inp : Input} {ds : List Draw} {e : Err}
+    (h : distributorEvaluate gregory cfg inp ds = .error e) :
+    e = .votingSystemError ∨ ∃ st, Reach gregory cfg inp ds st ∧ sumSeats st.seats ≠ inp.nSeats ∧ st.final = false ∧
+      CountErr cfg st.alloc inp.nSeats (totalVotes inp.votes) st.seats inp.maxS e := by
+  rcases distributorEvaluate_error gregory_ok h with h0 | ⟨st, hr, hstep⟩
+  · obtain ⟨st, hst⟩ := gregory_initState_ok inp ds
+    rw [hst] at h0; cases h0
+  · have hi := reach_inv gregory_ok hr
+    rcases gregory_countStep_err hi hstep with h1 | h1
+    · exact Or.inl h1
+    · have hne : sumSeats st.seats ≠ inp.nSeats := by
+        intro heq
+        unfold countStep at hstep
+        rw [if_pos heq] at hstep
+        cases hstep
+      exact Or.inr ⟨st, hr, hne, final_false_of_ne hi hne, h1⟩
+
+/-! ## Family 1: the selector — refusals -/
+
+theorem selectorEvaluate_error {E : Engine} {cfg : Cfg} {votes : Profile} {n : Nat} {ds : List Draw} {e : Err}
+    (h : selectorEvaluate E cfg votes n ds = .error e) :
+    distributorEvaluate E cfg (selectorInput votes n) ds = .error e := by
+  unfold selectorEvaluate at h
+  cases hd : distributorEvaluate E cfg (selectorInput votes n) ds with
+  | error e' => rw [hd] at h; simp only [bind, Except.bind] at h; injection h with h; rw [h]
+  | ok seats => rw [hd] at h; simp [bind, Except.bind, pure, Except.pure] at h
+
+/-- selector form: never more seats filled than asked for -/
+theorem selector_sum_le {E : Engine} (hE : EngineOK E) {cfg : Cfg} {votes : Profile} {n : Nat} {ds : List Draw} {st : St}
+    (hr : Reach E cfg (selectorInput votes n) ds st) : sumSeats st.seats ≤ n := by
+  induction hr with
+  | init h0 =>
+    obtain ⟨_, _, hs, _⟩ := initState_inv (cfg := cfg) hE h0
+    rw [hs]; simp [selectorInput, sumSeats]
+  | @step st st' hr' h ih =>
+    have hi := reach_inv hE hr'
+    have hj := shape_reach hE hr'
+    have hi' := step_inv hE hi h
+    obtain ⟨hne, out, ds', hnext, _, hadv⟩ := countStep_inv h
+    have hfin := final_false_of_ne hi hne
+    subst hadv
+    have hk := hi.keys hfin
+    have hsub := hi.cont_sub
+    have hcnd : (continuing st.alloc).Nodup := continuing_nodup hk
+    obtain ⟨hle, hcase⟩ := nextCount_cases hnext
+    simp only [selectorInput] at hnext hcase hle hsub hne
+    cases hcase with
+    | shortcut hs he =>
+      have := hi'.fin (by simp only [advance]; exact (electAll_spec he).2.1)
+      simpa [selectorInput] using le_of_eq this
+    | election qv hq hpos el hel hnel hout =>
+      obtain ⟨_, _, _, _, he1, _, _⟩ := afterElection_inv hout
+      have hqm1 : ∀ x ∈ quotaMultiples cfg.acceptEqual qv st.seats ((allRanked votes).map (fun c => (c, 1)))
+          (totalsInPlay st.alloc), x.2.1 = 1 := by
+        intro x hx
+        obtain ⟨t, ht, h1, _, hmax⟩ := mem_quotaMultiples hpos hx
+        have hxc : x.1 ∈ continuing st.alloc := by
+          rw [← keys_totalsInPlay]; exact List.mem_map.mpr ⟨(x.1, t), ht, rfl⟩
+        have := hmax 1 (maxGet_selector (hsub _ hxc))
+        omega
+      have hqmnd : ((quotaMultiples cfg.acceptEqual qv st.seats ((allRanked votes).map (fun c => (c, 1)))
+          (totalsInPlay st.alloc)).map (·.1)).Nodup :=
+        List.Nodup.sublist (quotaMultiples_keys_sublist _ _ _ _ _)
+          (keys_nodup_of_sortDesc (by rw [keys_totalsInPlay]; exact hcnd))
+      have := electByQuota_sum_le hel hqm1 hqmnd (by omega)
+      simp only [advance, he1, sumSeats_seatsAdd]
+      omega
+    | elimination _ hout =>
+      obtain ⟨_, _, _, _, he1, _⟩ := afterElimination_inv hout
+      simp only [advance, he1, seatsAdd, List.foldl_nil]
+      exact ih
+
+/-- **TransferableVoteSelector with Gregory transfer: every outcome that is not a list** (any configuration, any
+    profile, any seat number).  Besides the two declared refusals only two outcomes exist, each with its cause:
+    `ValueError` of `eliminate_step=None`, and a quota function returning a non-positive value (where the Python
+    code divides by the quota; outside the model).  The model's fuel value does not occur. -/
+theorem stv_refusals_partial {cfg : Cfg} {votes : Profile} {n : Nat} {ds : List Draw} {e : Err}
+    (h : selectorEvaluate gregory cfg votes n ds = .error e) :
+    e = .votingSystemError ∨ e = .notImplemented ∨ (cfg.step = none ∧ e = .valueError) ∨
+    ((∃ q, computeQuota cfg (totalVotes votes) n = some q ∧ q ≤ 0) ∧ e = errNonPositiveQuota) := by
+  rcases gregory_evaluate_err (selectorEvaluate_error h) with h1 | ⟨st, hr, hne, hfin, hc⟩
+  · exact Or.inl h1
+  · have hi := reach_inv gregory_ok hr
+    have hj := shape_reach gregory_ok hr
+    simp only [selectorInput] at hc
+    cases hc with
+    | tie => exact Or.inr (Or.inl rfl)
+    | noStep hs => exact Or.inr (Or.inr (Or.inl ⟨hs, rfl⟩))
+    | quota q hq hle => exact Or.inr (Or.inr (Or.inr ⟨⟨q, hq, hle⟩, rfl⟩))
+    | over hgt => exact absurd (selector_sum_le gregory_ok hr) (by omega)
+    | avail p k hp hk2 hlt hs =>
+      have hsub : ∀ c ∈ continuing st.alloc, c ∈ allRanked votes := hi.cont_sub
+      have hdisj : ∀ c ∈ continuing st.alloc, c ∉ st.seats.map (·.1) := by
+        intro c hc hmm
+        obtain ⟨p, hp, rfl⟩ := List.mem_map.mp hmm
+        exact hj.disj p hp hc
+      rw [availSeats_selector hsub hdisj] at hp
+      obtain ⟨c, _, rfl⟩ := List.mem_map.mp hp
+      simp only [Option.some.injEq] at hk2
+      omega
+
+/-- **TransferableVoteSelector, refusals** (Gregory transfer; any `eliminate_step` that is set; any quota function
+    whose value is positive whenever it is computed, or none; `mandatory_quota` or not; any profile; any seat
+    number, also above the number of candidates): an evaluation that does not return a list raises
+    `VotingSystemError` or `NotImplementedError` — nothing else, and the model's fuel value does not occur.
+    The full statement without `hstep` / `hq` is false of the code: see the two witnesses below. -/
+theorem stv_refusals {cfg : Cfg} {votes : Profile} {n : Nat} {ds : List Draw} {e : Err}
+    (hstep : cfg.step ≠ none) (hq : ∀ q, computeQuota cfg (totalVotes votes) n = some q → 0 < q)
+    (h : selectorEvaluate gregory cfg votes n ds = .error e) :
+    e = .votingSystemError ∨ e = .notImplemented := by
+  rcases stv_refusals_partial h with h1 | h1 | ⟨hs, _⟩ | ⟨⟨q, hq1, hle⟩, _⟩
+  · exact Or.inl h1
+  · exact Or.inr h1
+  · exact absurd hs hstep
+  · exact absurd (hq q hq1) (not_lt.mpr hle)
+
+/-- **The default selector** (`eliminate_step = -1`, no `mandatory_quota`) with `1 ≤ n ≤ #candidates` never stalls:
+    the only refusal is `NotImplementedError` (an unresolved tie).  (C04 `no_infinite_loop`.) -/
+theorem stv_default_refusals {cfg : Cfg} {votes : Profile} {n : Nat} {ds : List Draw} {e : Err}
+    (hstep : cfg.step = some (-1)) (hmand : cfg.mandatory = false)
+    (hq : ∀ q, computeQuota cfg (totalVotes votes) n = some q → 0 < q) (hn : n ≤ (allRanked votes).length)
+    (h : selectorEvaluate gregory cfg votes n ds = .error e) : e = .notImplemented := by
+  rcases selector_total ⟨hstep, hmand, hq⟩ hn ds with h1 | ⟨l, h1⟩
+  · rw [h1] at h; injection h with h; exact h.symm
+  · rw [h1] at h; cases h
+
+/-- … so the default selector answers a full valid list or refuses on a tie -/
+theorem stv_default_total {cfg : Cfg} {votes : Profile} {n : Nat} (hstep : cfg.step = some (-1))
+    (hmand : cfg.mandatory = false) (hq : ∀ q, computeQuota cfg (totalVotes votes) n = some q → 0 < q)
+    (hn : n ≤ (allRanked votes).length) (ds : List Draw) :
+    selectorEvaluate gregory cfg votes n ds = .error .notImplemented ∨
+    ∃ l, selectorEvaluate gregory cfg votes n ds = .ok l ∧ SelShape (allRanked votes) n (asSlots l) := by
+  rcases selector_total ⟨hstep, hmand, hq⟩ hn ds with h1 | ⟨l, h1⟩
+  · exact Or.inl h1
+  · exact Or.inr ⟨l, h1, stv_gregory_shape h1⟩
+
+/-- the quotas of the two C08 selector families are positive whenever computed (votes non-negative) -/
+theorem stv_quota_pos_droop {cfg : Cfg} (hc : cfg.quota = some Gen.Quota.droop) {votes : Profile} (hwf : WFVotes votes)
+    (n : Nat) : ∀ q, computeQuota cfg (totalVotes votes) n = some q → 0 < q := C04.droop_positive hc hwf n
+
+theorem stv_quota_pos_hare {cfg : Cfg} (hc : cfg.quota = some Gen.Quota.hare) {votes : Profile} (hwf : WFVotes votes)
+    (n : Nat) : ∀ q, computeQuota cfg (totalVotes votes) n = some q → 0 < q := C04.hare_positive hc hwf n
+
+theorem stv_quota_pos_none {cfg : Cfg} (hc : cfg.quota = none) (votes : Profile) (n : Nat) :
+    ∀ q, computeQuota cfg (totalVotes votes) n = some q → 0 < q := by
+  intro q hq; simp [computeQuota, hc] at hq
+
 end VL.C08
